@@ -10,6 +10,7 @@ import (
 	"crypto/sha256"
 	"encoding/hex"
 	"fmt"
+	"strings"
 
 	"verif/harness/abci"
 	"verif/harness/hx"
@@ -314,7 +315,7 @@ type PerturbParams struct {
 	Perturb    string `json:"perturbation"` // rotate | rotate-validator | unassign-role | blacklist | remove-permission | none
 }
 
-var perturbations = []string{"rotate", "rotate", "rotate-validator", "unassign-role", "blacklist", "remove-permission", "none"}
+var perturbations = []string{"rotate", "rotate", "rotate-validator", "unassign-role", "blacklist", "remove-permission", "none", "rotate-validator-onto-actor-and-away", "rotate-validator-onto-actor-and-away", "rotate-onto-actor"}
 
 func drawPerturb(r *hx.Rng, seed uint64) PerturbParams {
 	p := PerturbParams{Seed: seed, Councilor: r.Chance(40), VoteBefore: r.Chance(60), Perturb: perturbations[r.Intn(len(perturbations))]}
@@ -359,11 +360,25 @@ func runPerturb(p PerturbParams, ops hx.Counter) []Case {
 		}
 		res = h.Tx("register-recovery-secret", 1, recoverytypes.NewMsgRegisterRecoverySecret(a1.String(), hex.EncodeToString(sum[:]), "nonce", ""))
 		log = append(log, fmt.Sprintf("a1 registers a recovery secret code=%d", res.Code))
-		if p.Perturb == "rotate-validator" {
-			h.Tx("register-identity-records", 1, govtypes.NewMsgRegisterIdentityRecords(a1, []govtypes.IdentityInfoEntry{{Key: "moniker", Info: "valone"}}))
+		if strings.Contains(p.Perturb, "onto-actor") {
+			// U: an address without account that is already a network actor holding the same permissions individually
+			u := sdk.AccAddress([]byte("c06-perturbed-addr!!"))
+			for _, t := range p.Individual {
+				h.Tx("whitelist-permission", 0, govtypes.NewMsgWhitelistPermissions(a0, u, uint32(propTypes[t].perm)))
+			}
+			h.Tx("whitelist-permission", 0, govtypes.NewMsgWhitelistPermissions(a0, u, uint32(govtypes.PermVoteSoftwareUpgradeProposal)))
+			h.Tx("assign-role", 0, govtypes.NewMsgAssignRole(a0, u, 3))
+			log = append(log, "a0 whitelists the same individual vote permissions (and the upgrade vote permission, and role perturbed) for the unused address U: U is a network actor without account")
+		}
+		if strings.HasPrefix(p.Perturb, "rotate-validator") {
+			mon := "counc" // the councilor claim above already registered this moniker
+			if !p.Councilor {
+				mon = "valone"
+				h.Tx("register-identity-records", 1, govtypes.NewMsgRegisterIdentityRecords(a1, []govtypes.IdentityInfoEntry{{Key: "moniker", Info: mon}}))
+			}
 			res = h.Tx("issue-recovery-tokens", 1, recoverytypes.NewMsgIssueRecoveryTokens(a1.String()))
 			n, _ := sdk.NewIntFromString("6000000000000")
-			h.Tx("bank-send", 1, banktypes.NewMsgSend(a1, c.Accounts[5].Addr, sdk.NewCoins(sdk.NewCoin("rr/valone", n))))
+			h.Tx("bank-send", 1, banktypes.NewMsgSend(a1, c.Accounts[5].Addr, sdk.NewCoins(sdk.NewCoin("rr/"+mon, n))))
 			log = append(log, fmt.Sprintf("a1 issues recovery tokens (code=%d) and sends 60%% of them to a5", res.Code))
 		}
 	}, nil)
@@ -388,6 +403,15 @@ func runPerturb(p PerturbParams, ops hx.Counter) []Case {
 		case "rotate-validator":
 			res := h.Tx("rotate-validator-by-rr-holder", 5, recoverytypes.NewMsgRotateValidatorByHalfRRTokenHolder(c.Accounts[5].Addr.String(), a1.String(), fresh.String()))
 			log = append(log, fmt.Sprintf("a5 (60%% of the RR tokens) rotates validator owner a1 with MsgRotateValidatorByHalfRRTokenHolder code=%d %s", res.Code, short(res.Log)))
+		case "rotate-onto-actor":
+			res := h.Tx("rotate-recovery-address", 1, recoverytypes.NewMsgRotateRecoveryAddress(a1.String(), a1.String(), fresh.String(), hex.EncodeToString(proof)))
+			log = append(log, fmt.Sprintf("a1 rotates its address ONTO the existing actor U with MsgRotateRecoveryAddress code=%d %s", res.Code, short(res.Log)))
+		case "rotate-validator-onto-actor-and-away":
+			res := h.Tx("rotate-validator-by-rr-holder", 5, recoverytypes.NewMsgRotateValidatorByHalfRRTokenHolder(c.Accounts[5].Addr.String(), a1.String(), fresh.String()))
+			log = append(log, fmt.Sprintf("a5 (60%% of the RR tokens) rotates validator owner a1 ONTO the existing actor U code=%d %s", res.Code, short(res.Log)))
+			away := sdk.AccAddress([]byte("c06-rotated-away-v!!"))
+			res = h.Tx("rotate-validator-by-rr-holder", 5, recoverytypes.NewMsgRotateValidatorByHalfRRTokenHolder(c.Accounts[5].Addr.String(), fresh.String(), away.String()))
+			log = append(log, fmt.Sprintf("a5 rotates it again, AWAY from U to a fresh address code=%d %s", res.Code, short(res.Log)))
 		case "unassign-role":
 			res := h.Tx("unassign-role", 0, govtypes.NewMsgUnassignRole(a0, a1, 3))
 			log = append(log, fmt.Sprintf("a0 unassigns role perturbed from a1 code=%d", res.Code))
@@ -414,13 +438,20 @@ func runPerturb(p PerturbParams, ops hx.Counter) []Case {
 				h.Tx("vote-proposal", 0, govtypes.NewMsgVoteProposal(pid, a0, govtypes.OptionYes, sdk.ZeroDec()))
 			}
 		}
-		log = append(log, "a0 submits and approves one proposal of EVERY proposal type of the table")
+		content := upgradetypes.NewSoftwareUpgradeProposal("v2", nil, c.Time.Unix()+700, abci.ChainID, "verif-2", "", 0, "", true, false, true)
+		if msg, err := govtypes.NewMsgSubmitProposal(a0, "u", "u", content); err == nil {
+			if res := h.Tx("submit-proposal", 0, msg); res.Code == 0 {
+				pid++
+				h.Tx("vote-proposal", 0, govtypes.NewMsgVoteProposal(pid, a0, govtypes.OptionYes, sdk.ZeroDec()))
+			}
+		}
+		log = append(log, "a0 submits and approves one proposal of EVERY proposal type of the table and a SoftwareUpgrade(upgrade_time=now+700, instate, skip handler)")
 	}, nil)
-	for i, dt := range []int64{310, 310, 5, 5} {
-		if !h.Block(BlockReq{Dt: dt, Proposer: i}, nil, nil) {
+	for _, dt := range []int64{310, 310, 5, 90, 5, 5} {
+		if !h.Block(BlockReq{Dt: dt, Proposer: 0}, nil, nil) {
 			break
 		}
 	}
-	log = append(log, "blocks dt=310,310,5,5 (voting end and enactment of all of them)")
+	log = append(log, "blocks dt=310,310,5,90,5,5 (voting end and enactment of all of them; the upgrade plan becomes due)")
 	return []Case{histCase("actor-perturbation", h, log, p)}
 }
